@@ -28,6 +28,11 @@ RULES = {
     'C06.d': 'deleted marker constant shared by writer and loader; ValueStatus and ConsensuStrategy encode/decode tables inverse',
     'C06.g': 'offset bases are measured on the file generation being written: in the snapshot writer no rename of a data file '
              '(.keys / .values) can follow the measurement of that file\'s size, neither inside one helper nor between helpers',
+    'C06.i': 'an offset recorded for a record is the running offset BEFORE it is advanced past that record: in the snapshot writer no '
+             'self-increment of a running offset (value_addr, next_key_addr) dominates, inside the same iteration, a call that '
+             'records that offset for the entry (set_value_as_ok / write_new_key_value / update_key / write_key)',
+    'C06.j': 'a client mutation (store, increment) never stores the state Ok: whatever it writes differs from the disk at least by its '
+             'version, so the entry must be selected by the next incremental snapshot (state Updated / New)',
     'C06.h': 'the loader advances its running key-record offset on every record it consumed: no path from a record read back to '
              'the loop head skips the advance',
     'C06.e': 'the snapshot selects state != Ok, or everything when reclaiming',
@@ -490,6 +495,96 @@ def offsets_rules(ck, m):
           'updates records at wrong positions and the changes are lost on restart' % '; '.join(bad[:2]), '%s:%s' % (wb.file, wb.line))
     ck.floor('C06.g', len(R), 2, 'helpers of the writer that rename a data file')
     ck.floor('C06.g', len(M), 2, 'helpers of the writer that measure a data file')
+    # ---- (j) mutations mark the entry dirty ---------------------------------------------------
+    from props.C02 import store_fn, increment_fn
+    nj = 0
+    for mb in (store_fn(m), increment_fn(m)):
+        for bi_, bl_ in enumerate(mb.blocks):
+            if bl_.get('cleanup'):
+                continue
+            for s_ in bl_['s']:
+                if s_['k'] == 'assign' and s_['r']['k'] == 'agg' and s_['r'].get('adt', '').endswith('bo::Value') and 'state' in s_['r'].get('fields', []):
+                    nj += 1
+                    vs = core.enum_variants_of(mb, s_['r']['ops'][s_['r']['fields'].index('state')], stop_at_calls=True)
+                    clean = 'Ok' in vs
+                    ck.ob('C06.j', short(mb.id), 'mutation-marks-dirty:%d' % nj, not clean,
+                          'the entry written by %s is never marked Ok (states: %s)' % (short(mb.id), sorted(vs)) if not clean else
+                          '%s can store an entry in state Ok (%s): the incremental snapshot selects state != Ok only, so the version written by '
+                          'this mutation never reaches the key file and a restart restores the older version' % (short(mb.id), sorted(vs)), mb.loc(bi_))
+    ck.floor('C06.j', nj, 3, 'Value aggregates built by the store and the increment')
+    # ---- (i) offsets recorded before they are advanced ------------------------------------------
+    from props.C07 import natural_loops as _nl
+    wloops = _nl(wb)
+    inloop = set()
+    for h_, body_ in wloops:
+        inloop |= body_
+    # running offsets: named u64 variables with a definition `R = R + x` inside the loop (MIR: t = copy R; s = Add(t, x); R = s.0)
+    running = {}
+
+    def copies_of(l_, seen_=None):
+        """locals l_ may be a plain copy of"""
+        seen_ = seen_ or set()
+        out_ = {l_}
+        for (b2, s2, k2, pl2) in wb.defs().get(l_, []):
+            if k2 == 'assign' and pl2['k'] == 'use':
+                q = pl2['o'].get('c') or pl2['o'].get('m')
+                if q and not q.get('p') and q['l'] not in seen_:
+                    seen_.add(q['l'])
+                    out_ |= copies_of(q['l'], seen_)
+        return out_
+    for R in range(len(wb.locals)):
+        if wb.locals[R] != 'u64' or not wb.var_name(R):
+            continue
+        for (b2, s2, k2, pl2) in wb.defs().get(R, []):
+            if k2 != 'assign' or pl2['k'] != 'use' or b2 not in inloop:
+                continue
+            q = pl2['o'].get('c') or pl2['o'].get('m')
+            if not q:
+                continue
+            for (b3, s3, k3, pl3) in wb.defs().get(q['l'], []):
+                if k3 == 'assign' and pl3['k'] == 'bin' and pl3['op'].startswith('Add'):
+                    for side in ('a', 'b'):
+                        o_ = pl3[side]
+                        p_ = (o_.get('c') or o_.get('m')) if isinstance(o_, dict) else None
+                        if p_ and R in copies_of(p_['l']):
+                            running.setdefault(R, set()).add(b2)
+    def chain(op_):
+        """locals in the backward copy chain of an operand"""
+        out, st = set(), []
+        p0 = op_.get('c') or op_.get('m')
+        if p0:
+            st.append(p0['l'])
+        while st:
+            l_ = st.pop()
+            if l_ in out:
+                continue
+            out.add(l_)
+            for (b2, s2, k2, pl2) in wb.defs().get(l_, []):
+                if k2 == 'assign' and pl2['k'] == 'use':
+                    q = pl2['o'].get('c') or pl2['o'].get('m')
+                    if q and not q.get('p'):
+                        st.append(q['l'])
+        return out
+    late = []
+    ncalls = 0
+    for bi_, t_ in wb.calls():
+        if bi_ not in inloop or is_log(t_):
+            continue
+        if callee(t_).split('::')[-1] not in ('set_value_as_ok', 'write_new_key_value', 'update_key', 'write_key'):
+            continue
+        for a_ in t_['args']:
+            for R, incs in running.items():
+                if R in chain(a_):
+                    ncalls += 1
+                    for ib_ in incs:
+                        # reachable from the increment inside the same iteration (not through the loop head)
+                        if ib_ != bi_ and bi_ in wb.reach_from([ib_], stop=lambda q: any(q == h_ for h_, _ in wloops)):
+                            late.append('%s gets %s after it was advanced at %s' % (callee(t_).split('::')[-1], wb.var_name(R), wb.loc(ib_)))
+    ck.ob('C06.i', short(wb.id), 'offset-recorded-before-advance', not late,
+          'every offset recorded for an entry is read before the running offset is advanced past the record' if not late else
+          '%s: the entry remembers the offset of the NEXT record; the next incremental snapshot updates the neighbouring key in place '
+          '(or writes past the end of the file) and the change is lost on restart' % '; '.join(sorted(set(late))[:2]), '%s:%s' % (wb.file, wb.line))
+    ck.note('C06.i: %d running offsets found in the snapshot writer (named u64 variables advanced inside the loop); the rule is vacuous when the offsets live elsewhere (a parameter struct)' % len(running))
     # ---- (h) the loader's running offset ------------------------------------------------------
     from props.C07 import natural_loops
     ld = [b for b in P.user_bodies() if b.id.endswith('storage::disk::create_db_from_file_name')]
